@@ -105,7 +105,9 @@ def regenerate(repo):
 	Returns (ok, message)."""
 	src = os.path.join(repo, 'src', 'gambit', '_cython')
 	rc, out, err = sh([sys.executable, os.path.join(VERIF, 'tools', 'pyx2v.py'), src, os.path.join(TH, 'Gen')])
-	return rc == 0, (out + err).strip()
+	rc2, out2, err2 = sh([sys.executable, os.path.join(VERIF, 'tools', 'py2v.py'), os.path.join(repo, 'src', 'gambit'),
+	                      os.path.join(TH, 'Gen')])
+	return rc == 0 and rc2 == 0, (out + err + ' ' + out2 + err2).strip()
 
 
 def make(jobs=16, timeout=3000):
